@@ -126,14 +126,14 @@ def g_train(draw):
             "floor": float(floor), "dead": dead}
 
 
-def train(case, k):
+def train(case, k, stats=None):
     from bob.learn.em import IVectorMachine
 
     ubm = sut.make_gmm(case["ubm"])
     np.random.seed(case["np_seed"])
     m = IVectorMachine(ubm, dim_t=case["dim_t"], max_iterations=k, update_sigma=case["update_sigma"],
                        variance_floor=case["floor"])
-    m.fit([sut.make_stats(s) for s in case["items"]])
+    m.fit([sut.make_stats(s) for s in case["items"]] if stats is None else stats)
     return m
 
 
@@ -148,9 +148,18 @@ def c_train(ctx, case):
     items = case["items"]
     vals = [ref.ivec_marginal_ll(items, T0, sig0, p["means"])]
     floor_active = False
+    # the statement's observation: T / sigma after max_iterations = 1..K on the SAME list of statistics objects
+    # (half of the cases; the other half builds fresh objects for every k)
+    shared = [sut.make_stats(s) for s in items] if case["np_seed"] % 2 == 0 else None
     for k in range(1, case["K"] + 1):
-        m = train(case, k)
+        m = train(case, k, shared)
         T, sig = np.asarray(m.T, float), np.asarray(m.sigma, float)
+        if shared is not None and k == 1:
+            # ... and projecting the training statistics themselves gives their posterior means
+            for s_, st_ in zip(items, shared):
+                w_, _, _ = ref.ivec_posterior(s_["n"], s_["sum_px"], T, sig, p["means"])
+                ctx.close(np.asarray(m.project(st_), float), w_, "i-vector of a training statistic after fit", rtol=1e-6,
+                          atol=1e-8 * (np.abs(w_).max() + 1e-300))
         ctx.check(T.shape == (C, F, R) and sig.shape == (C, F), "T/sigma shapes %s %s" % (T.shape, sig.shape), "shape")
         ctx.finite(T, "T after %d iteration(s)" % k)
         ctx.finite(sig, "sigma after %d iteration(s)" % k)
